@@ -16,8 +16,16 @@ def tlc_line(obj):
 
 
 def model_check_and_replay(ctx, binp):
-    cfg = "MC_AnkoEnv_quick.cfg" if ctx.quick() else "MC_AnkoEnv_thorough.cfg"
-    r = vlib.run_tlc(ctx, "MC_AnkoEnv", cfg, workers=vlib.NCPU, timeout=1500, want_lines=False)
+    """breadth (full alphabet, shallow) and depth (one value name, one type name, deeper: define / delete / copy / define again ...)"""
+    s = None
+    for cfg in (("MC_AnkoEnv_quick.cfg", "MC_AnkoEnv_deep.cfg") if ctx.quick() else ("MC_AnkoEnv_thorough.cfg", "MC_AnkoEnv_deep5.cfg")):
+        s1 = model_check_and_replay_cfg(ctx, binp, cfg)
+        s = s or s1
+    return s
+
+
+def model_check_and_replay_cfg(ctx, binp, cfg):
+    r = vlib.run_tlc(ctx, "MC_AnkoEnv", cfg, workers=(vlib.NCPU if "deep" not in cfg else 4), timeout=1500, want_lines=False)
     vlib.tlc_ok(ctx, r, "MC_AnkoEnv " + cfg)
     res = os.path.join(ctx.work, "replay.json")
     vlib.run_cmd(ctx, [binp, "replay", os.path.join(r.dir, "tlc.out"), res], timeout=1500)
@@ -27,8 +35,10 @@ def model_check_and_replay(ctx, binp):
     ctx.cov["evaluations"] += s["cases"]
     ctx.cov["distinct_nontrivial"] += s["distinct_nontrivial"]
     ctx.cov["traces_validated_against_impl"] += s["cases"]
-    ctx.cov["replayed_api_calls"] = s["steps"]
-    ctx.cov["transition_cover_by_op"] = s["op_count"]
+    ctx.cov["replayed_api_calls"] = ctx.cov.get("replayed_api_calls", 0) + s["steps"]
+    ctx.cov.setdefault("transition_cover_by_op", {})[cfg] = s["op_count"]
+    ctx.cov["states"] += r.distinct
+    ctx.cov["transitions"] += r.generated
     for c in (s.get("samples") or [])[:2]:
         ctx.sample({"kind": "spec->code history (calls, expected results)", "history": c["h"]})
     # pool line for replay files
